@@ -52,6 +52,30 @@ def _pending_of(pid, fd):
         os.close(f)
 
 
+def _asleep_waiting(pid):
+    try:
+        st = open(f"/proc/{pid}/task/{pid}/stat").read()
+        state = st[st.rindex(")") + 2]
+        sc = open(f"/proc/{pid}/task/{pid}/syscall").read().split()
+    except (FileNotFoundError, ProcessLookupError, ValueError):
+        return False
+    return state == "S" and len(sc) >= 1 and sc[0] in ("0", "7", "271", "232", "281", "61", "247")   # read poll ppoll epoll_wait epoll_pwait wait4 waitid
+
+
+def _pipe_fds(pid):
+    out = []
+    try:
+        for n in os.listdir(f"/proc/{pid}/fd"):
+            try:
+                if int(n) > 2 and os.readlink(f"/proc/{pid}/fd/{n}").startswith("pipe:"):
+                    out.append(int(n))
+            except OSError:
+                pass
+    except OSError:
+        pass
+    return out
+
+
 def _children(pid):
     try:
         return [int(x) for x in open(f"/proc/{pid}/task/{pid}/children").read().split()]
@@ -170,8 +194,9 @@ def _stream_indirect(args, lines, env, timeout, via):
         if len(kids) != 1 or _pending(ifd) != 0:
             return False
         a, fd_stub = _blocked_in_read_any(kids[0])
-        b, fd_delta = _blocked_in_read_any(p.pid)
-        return a and b and fd_delta > 2 and _pending_of(p.pid, fd_delta) == 0
+        # delta asleep waiting for its producer - in read(2), or in poll(2) if it collects the output some other way -
+        # with nothing unread in any of its pipes
+        return a and _asleep_waiting(p.pid) and all(_pending_of(p.pid, fd) == 0 for fd in _pipe_fds(p.pid))
 
     def quiesce():
         nonlocal out
